@@ -3044,6 +3044,21 @@ class MOFCompiler:
             self.parser.log(
                 _format("Compiling file {0!A}", filename))
 
+        in_progress = self.__dict__.setdefault('_files_in_progress', [])
+        key = os.path.abspath(filename)
+        if key in in_progress:
+            raise MOFParseError(
+                msg=_format("MOF file {0!A} includes or depends on itself",
+                            filename))
+        in_progress.append(key)
+        try:
+            return self._compile_file(filename, ns)
+        finally:
+            in_progress.pop()
+
+    def _compile_file(self, filename, ns):
+        """Compile a MOF file (without the check for circular inclusion)."""
+
         if not os.path.exists(filename):
             # try to find in search path
             rfilename = self.find_mof(os.path.basename(filename[:-4]).lower())
